@@ -275,11 +275,13 @@ func run(propID, tier, root, verif, patchFile, onlyRule string, verbose, noSeeds
 
 	// thorough tier: mutation sweep over the anchored functions (informational)
 	var sweep *sweepResult
+	var specSweep *specSweepResult
 	if n := sweepLimit; !noSeeds && patchFile == "" && (n > 0 || (n < 0 && tier == "thorough")) {
 		if n < 0 {
 			n = 400
 		}
 		sweep = runSweep(prog, propID, selected, all, findings, n, seedEnv, nil)
+		specSweep = runSpecSweep(prog, propID, selected, verif, n)
 	}
 
 	// report
@@ -317,6 +319,13 @@ func run(propID, tier, root, verif, patchFile, onlyRule string, verbose, noSeeds
 	if sweep != nil {
 		fmt.Fprintf(&rep, "mutation sweep: %d anchored functions, %d candidate mutants, %d sampled: %d do not compile, %d killed, %d survived (kill rate of compiling mutants %.0f%%)\n",
 			sweep.AnchoredFunctions, sweep.Candidates, sweep.Sampled, sweep.NotCompiling, sweep.Killed, sweep.Survived, 100*sweep.KillRate)
+	}
+	if specSweep != nil {
+		fmt.Fprintf(&rep, "specification sweep: %d candidate single-token mutants of %v, %d sampled: %d unparsable, %d killed by the protocol tables, %d survived (kill rate %.0f%%)\n",
+			specSweep.Candidates, specSweep.Files, specSweep.Sampled, specSweep.Unparsable, specSweep.Killed, specSweep.Survived, 100*specSweep.KillRate)
+		for _, sv := range specSweep.Survivors {
+			fmt.Fprintf(&rep, "    survivor: %s\n", sv)
+		}
 	}
 	if verbose {
 		for _, o := range all {
@@ -397,6 +406,9 @@ func run(propID, tier, root, verif, patchFile, onlyRule string, verbose, noSeeds
 	}
 	if sweep != nil {
 		ev["coverage"].(map[string]any)["mutation_sweep"] = sweep
+	}
+	if specSweep != nil {
+		ev["coverage"].(map[string]any)["specification_sweep"] = specSweep
 	}
 	if info.Level == "translation_validation" {
 		cov := ev["coverage"].(map[string]any)
